@@ -1,2 +1,6 @@
 (* Tie/Parse/All.v — the theorems about the generated parsers (Gen/Parse). *)
 From Verif.Tie.Parse Require Common Apache Hex Mattermost.
+From Verif.Tie.Parse Require Scan Cargo Npm Nuget Github Gentoo.
+From Verif.Tie.Parse Require ListCursor Debian Rpm Semver Conan.
+From Verif.Tie.Parse Require Scanners Alpm Gem Maven.
+From Verif.Tie.Parse Require RangeCommon RangeTie CranRange DebianRange RpmRange GentooRange ApacheRange NugetRange NpmRange.
